@@ -592,6 +592,9 @@ pub struct WorldOpts {
     /// drop detections that would form a near-coincident edge pair with an earlier detection of the same call
     /// (the input class of the recorded geo-0.27 finding C15; needed when own-area thresholds are enabled)
     pub avoid_coincident: bool,
+    /// every object reports a very low detection confidence (0.004..0.045): exercises the min-confidence floor and
+    /// the large Mahalanobis weights (100 - d2) / conf
+    pub low_conf: bool,
 }
 
 pub const PRESETS: [&str; 7] = ["random", "crossing", "convoy", "crowd", "lookalikes", "teleport", "stop-and-go"];
@@ -678,7 +681,7 @@ pub fn gen_world(rng: &mut Rng, o: &WorldOpts) -> Vec<Obj> {
                 gone_at,
                 gap_at,
                 gap_len,
-                conf: if rng.chance(0.3) { rng.uniform(0.03, 1.0) as f32 } else { 1.0 },
+                conf: if o.low_conf { rng.uniform(0.004, 0.045) as f32 } else if rng.chance(0.3) { if rng.chance(0.3) { rng.uniform(0.004, 0.06) as f32 } else { rng.uniform(0.03, 1.0) as f32 } } else { 1.0 },
                 motion: if o.preset == "stop-and-go" { 3 } else { rng.usize(3) as u8 },
             });
         }
@@ -862,7 +865,7 @@ pub fn gen_cfg(rng: &mut Rng, kind: Kind) -> Cfg {
         voting_shards: 1 + rng.usize(4),
         history: 1 + rng.usize(10),
         max_idle: rng.usize(4),
-        min_conf: *rng.pick(&[0.05f32, 0.1, 0.3]),
+        min_conf: *rng.pick(&[0.01f32, 0.05, 0.1, 0.3]),
         // 30% of the configurations carry spatio-temporal constraints (binding or not, one or two add calls)
         constraints: if rng.chance(0.3) {
             let calls = 1 + rng.usize(2);
@@ -870,7 +873,9 @@ pub fn gen_cfg(rng: &mut Rng, kind: Kind) -> Cfg {
         } else {
             None
         },
-        wp: 1.0 / 20.0,
+        // mostly the default Kalman weights; sometimes a large position weight (then the chi-square gate is wider
+        // than the bounding-circle reach, so the reach part of the Mahalanobis gate becomes binding)
+        wp: *rng.pick(&[0.05f32, 0.05, 0.05, 0.05, 0.05, 0.05, 0.3, 1.0]),
         wv: 1.0 / 160.0,
         vis: VisOpts {
             metric: if rng.chance(0.5) { VisMetric::Euclid(*rng.pick(&[0.3f32, 0.6, 1.0])) } else { VisMetric::Cosine(*rng.pick(&[0.5f32, 0.8, 0.95])) },
